@@ -69,7 +69,11 @@ def sched_chain(rng, coin, shape):
     from ..chain import link
     blocks = [b for _, b in cb.blocks]
     link(blocks)
-    return [(h, b) for (h, _), b in zip(cb.blocks, blocks)]
+    out = [(h, b) for (h, _), b in zip(cb.blocks, blocks)]
+    # header times as real chains have them (backwards steps, future-dated relative to the moment of the run, 32-bit edges): a result
+    # must not depend on WHEN the tool runs
+    gen.vary_times(rng, out)
+    return out
 
 
 def digest_outputs(cbname, p, dump):
